@@ -13,10 +13,10 @@ def register(reg):
     # per-entry facts as ghost functions of the index (definitions instantiated at ground indices)
     reg.defn("M(h, tl, j)", "host_matches(h, tl[j])", {"h": "str", "tl": "List[str]", "j": "int"})
     reg.defn("OK(tl, j)", "idna_ok(hp(strip_dot(tl[j])))", {"tl": "List[str]", "j": "int"})
-    reg.contract("werkzeug/sansio/utils.py:_strip_port", prop="C20,C07", params={"host": "str"}, returns="str",
+    reg.contract("werkzeug/sansio/utils.py:_strip_port", modifies=[], prop="C20,C07", params={"host": "str"}, returns="str",
                  ensures=["result == hp(host)"], replay="pure")
     reg.contract(
-        "werkzeug/sansio/utils.py:host_is_trusted", prop="C20,C07",
+        "werkzeug/sansio/utils.py:host_is_trusted", modifies=[], prop="C20,C07",
         params={"hostname": "Optional[str]", "trusted_list": "List[str]"}, returns="bool",
         ensures=[
             # accepted only if it equals a listed name or is a true subdomain of a dot-prefixed entry
@@ -112,7 +112,7 @@ def register(reg):
                  modifies=["self.n_delete_cookie"], ensures=["self.n_delete_cookie == old(self.n_delete_cookie) + 1"])
 
     reg.contract(
-        "werkzeug/debug/__init__.py:DebuggedApplication._fail_pin_auth", prop=P, self_model=App,
+        "werkzeug/debug/__init__.py:DebuggedApplication._fail_pin_auth", modifies=["self._failed_pin_auth.value"], prop=P, self_model=App,
         ensures=["self._failed_pin_auth.value == (old(self._failed_pin_auth.value) + 1 if old(self._failed_pin_auth.value) < 255 else 255)"],
         assumes=["0 <= self._failed_pin_auth.value and self._failed_pin_auth.value <= 255"],
     )
